@@ -76,3 +76,35 @@ Theorem C08_label_updates_from_source :
           ["transform_compressible"; "transform_pseudo_instructions"; "resolve_aligns"]%string = true.
 Proof. exact PassOrder.label_updates_ok. Qed.
 Print Assumptions C08_label_updates_from_source.
+
+(* ---- tie of the guards to the source (Gen/Guards.v, regenerated from asm.py on every run; Proofs/Guards.v) -------------------
+   The model's `imm_unstable` (the test in front of the rule selection of transform_compressible), `is_settled` and
+   `is_position_relative` ARE the interpretation of what the source says today: which classes are jumps, the class of the
+   immediate, the dictionary the reference must not be in, the arguments handed to is_settled and by it to expr.eval. *)
+From BB Require Gen.Guards Proofs.Guards.
+Theorem C08_guard_from_source : forall l pos consts labels cls fs,
+  imm_unstable l pos consts cls fs = Proofs.Guards.gen_imm_unstable l pos consts labels cls fs.
+Proof. exact Proofs.Guards.guard_from_source. Qed.
+Print Assumptions C08_guard_from_source.
+Theorem C08_settled_from_source : forall l pos consts labels e,
+  is_settled l pos consts e = Proofs.Guards.gen_is_settled Gen.Guards.cg_env Gen.Guards.cg_settled_args l pos consts labels e.
+Proof. exact Proofs.Guards.settled_from_source. Qed.
+Print Assumptions C08_settled_from_source.
+Theorem C08_position_relative_from_source : forall e, is_position_relative e = Proofs.Guards.gen_posrel e.
+Proof. exact Proofs.Guards.posrel_from_source. Qed.
+Print Assumptions C08_position_relative_from_source.
+
+(* ---- tie of expression evaluation to the source (Gen/Guards.v: the return expressions of Offset / Position / Hi / Lo .eval, translated;
+   the position and environment resolve_immediates evaluates with, the second half of an auipc / lui pair at the position of the first) *)
+Theorem C08_eval_from_source : Proofs.Guards.eval_from_source_stmt.
+Proof. exact Proofs.Guards.eval_from_source. Qed.
+Print Assumptions C08_eval_from_source.
+Theorem C08_resolve_immediates_from_source : Proofs.Guards.resolve_immediates_from_source_stmt.
+Proof. exact Proofs.Guards.resolve_immediates_from_source. Qed.
+Print Assumptions C08_resolve_immediates_from_source.
+
+(* ---- resolve_labels as the source has it (Gen/Guards.v): a label is bound to the running position (from 0, advanced by item.size()),
+   a second definition is refused at its line *)
+Theorem C08_resolve_labels_from_source : Proofs.Guards.resolve_labels_from_source_stmt.
+Proof. exact Proofs.Guards.resolve_labels_from_source. Qed.
+Print Assumptions C08_resolve_labels_from_source.
